@@ -351,6 +351,8 @@ class Interp:
             table = {ast.Add: ("add", _add), ast.Sub: ("sub", _sub), ast.Mult: ("mul", _mul), ast.Div: ("truediv", _div)}
             if type(e.op) in table:
                 nm, fn = table[type(e.op)]
+                if nm == "truediv" and a.kind == "num" and b.kind == "num" and not a.arr and not b.arr:
+                    fn = lambda x, y: x / y  # Python scalars: division by zero raises
                 return self.binop(e, nm, fn, a, b)
             return self.opaque(f"binary op {type(e.op).__name__}", e)
         if isinstance(e, ast.Compare) and len(e.ops) == 1:
@@ -534,7 +536,8 @@ class Interp:
         if r in ("builtins.max", "builtins.min") and len(args) == 2:
             return self.binop(c, name, _np_max if name == "max" else _np_min, args[0], args[1])
         if r in ("operator.truediv",) and len(args) == 2:
-            return self.binop(c, "truediv", lambda a, b: a / b, args[0], args[1])
+            arr = any(x.kind == "num" and x.arr for x in args)
+            return self.binop(c, "truediv", _div if arr else (lambda a, b: a / b), args[0], args[1])
         if r in ("operator.sub", "operator.add", "operator.mul") and len(args) == 2:
             return self.binop(c, name, {"sub": _sub, "add": _add, "mul": _mul}[name], args[0], args[1])
         if r in ("jax.lax.stop_gradient",) and args:
@@ -721,7 +724,8 @@ class Interp:
             if op.impl_ext == "operator.mul" and len(args) == 2:
                 return self.binop(c, "mul", _mul, args[0], args[1])
             if op.impl_ext == "operator.truediv" and len(args) == 2:
-                return self.binop(c, "truediv", lambda a, b: a / b, args[0], args[1])
+                arr = any(x.kind == "num" and x.arr for x in args)
+                return self.binop(c, "truediv", _div if arr else (lambda a, b: a / b), args[0], args[1])
             if op.impl_ext == "operator.neg" and len(args) == 1:
                 return self.unop(c, "neg", lambda x: -x, args[0])
         return self.opaque(f"op {op.name} has no analysable implementation for {kinds}", c)
